@@ -493,3 +493,95 @@ Ltac step_undo_in H L :=
       rewrite (bindM_ok (free_opts l) k (mkHeap n live) _ _ X) in H; clear X;
       cbv beta iota in H
   end.
+
+Lemma NoDup_app_intro {A} (a b : list A) :
+  NoDup a -> NoDup b -> (forall x, In x a -> In x b -> False) -> NoDup (a ++ b).
+Proof.
+  induction a as [|x a IH]; simpl; intros Ha Hb Hd; [exact Hb|].
+  inversion Ha as [|? ? Hx Hr]; subst. constructor.
+  - intros Hin. apply in_app_or in Hin. destruct Hin as [Hin|Hin]; [contradiction|].
+    apply (Hd x); [left; reflexivity | exact Hin].
+  - apply IH; [exact Hr | exact Hb|]. intros y Hy Hyb. apply (Hd y); [right; exact Hy | exact Hyb].
+Qed.
+
+From Coq Require Import Permutation.
+
+(* Permutation of explicit cons-lists over a common tail: move the head of the left side into
+   place on the right side, recursively *)
+Ltac perm_cons :=
+  simpl;
+  lazymatch goal with
+  | |- Permutation ?l ?l => apply Permutation_refl
+  | |- Permutation (?a :: ?l) ?r =>
+      let rec split r :=
+        lazymatch r with
+        | a :: ?t => constr:((@nil nat, t))
+        | ?y :: ?t => let p := split t in
+                      lazymatch p with (?l1, ?l2) => constr:((y :: l1, l2)) end
+        end in
+      let p := split r in
+      lazymatch p with
+      | (?l1, ?l2) =>
+          apply (Permutation_trans (l' := a :: (l1 ++ l2)));
+          [apply perm_skip; perm_cons | apply (Permutation_middle l1 l2 a)]
+      end
+  end.
+
+(* Permutation of block lists built with ++ and :: from opaque pieces, possibly using
+   Permutation hypotheses: compare occurrence counts (a linear problem) *)
+Lemma count_occ_cons_split (a : nat) l x :
+  count_occ Nat.eq_dec (a :: l) x = count_occ Nat.eq_dec [a] x + count_occ Nat.eq_dec l x.
+Proof. simpl. destruct (Nat.eq_dec a x); lia. Qed.
+
+Ltac perm_solve :=
+  apply (proj2 (Permutation_count_occ Nat.eq_dec _ _));
+  let x := fresh "x" in intro x;
+  repeat match goal with
+         | H : Permutation ?a ?b |- _ =>
+             let H' := fresh in
+             pose proof (proj1 (Permutation_count_occ Nat.eq_dec a b) H x) as H'; clear H
+         end;
+  repeat first
+    [ rewrite count_occ_app in *
+    | match goal with
+      | |- context [count_occ Nat.eq_dec (?a :: ?l) x] =>
+          lazymatch l with
+          | [] => fail
+          | _ => rewrite (count_occ_cons_split a l x)
+          end
+      | H : context [count_occ Nat.eq_dec (?a :: ?l) x] |- _ =>
+          lazymatch l with
+          | [] => fail
+          | _ => rewrite (count_occ_cons_split a l x) in H
+          end
+      end ];
+  try lia.
+
+(* the same for lists of request identifiers *)
+Lemma count_occ_cons_split_z (a : Z) l x :
+  count_occ Z.eq_dec (a :: l) x = count_occ Z.eq_dec [a] x + count_occ Z.eq_dec l x.
+Proof. simpl. destruct (Z.eq_dec a x); lia. Qed.
+
+Ltac perm_solve_z :=
+  apply (proj2 (Permutation_count_occ Z.eq_dec _ _));
+  let x := fresh "x" in intro x;
+  repeat match goal with
+         | H : Permutation ?a ?b |- _ =>
+             let H' := fresh in
+             pose proof (proj1 (Permutation_count_occ Z.eq_dec a b) H x) as H'; clear H
+         end;
+  repeat first
+    [ rewrite count_occ_app in *
+    | match goal with
+      | |- context [count_occ Z.eq_dec (?a :: ?l) x] =>
+          lazymatch l with
+          | [] => fail
+          | _ => rewrite (count_occ_cons_split_z a l x)
+          end
+      | H : context [count_occ Z.eq_dec (?a :: ?l) x] |- _ =>
+          lazymatch l with
+          | [] => fail
+          | _ => rewrite (count_occ_cons_split_z a l x) in H
+          end
+      end ];
+  try lia.
